@@ -1,9 +1,10 @@
 (* Entry point of the extracted evaluator. *)
 From Coq Require Import String.
-From HS Require Import Lib.Base Run.Val Run.ServeRun Run.ServeSpec Run.NegotRun.
+From HS Require Import Lib.Base Run.Val Run.ServeRun Run.ServeSpec Run.NegotRun Run.StreamRun.
 
 Definition E_SERVE := bs "serve"%string.
 Definition E_NEGOT := bs "negot"%string.
+Definition E_STREAM := bs "stream"%string.
 
 Definition run_case (engine : bytes) (v : val) : val :=
   if beq_bytes engine E_SERVE then
@@ -22,4 +23,5 @@ Definition run_case (engine : bytes) (v : val) : val :=
     | _ => VL [finding K_BAD engine (VL []) (VL [])]
     end
   else if beq_bytes engine E_NEGOT then run_negot v
+  else if beq_bytes engine E_STREAM then run_stream v
   else VL [finding K_BAD engine (VL []) (VL [])].
